@@ -316,8 +316,11 @@ func runCase(r *hx.Run, c hx.Case) {
 	tabs := tablesFor(ops)
 	pt, st, et := tabs.Args()
 	c.Args = []string{opsString(ops), pt, st, et}
-	for _, h := range tabs.HAddr {
+	for _, h := range append(append([]string(nil), tabs.HAddr...), tabs.HRound...) {
 		r.Fail(c.ID, "h-addr-not-valid", "hypothesis on the address oracle does not hold: "+h)
+	}
+	for _, h := range tabs.HRoundQB {
+		r.Fail(c.ID, knownQB, "H-addr does not hold (net/mail): "+h)
 	}
 	r.Dist["addresses-hypotheses-validated"] += tabs.NAddrs
 
@@ -353,7 +356,7 @@ func runCase(r *hx.Run, c hx.Case) {
 			case !nameCarriable(o.args[0]) && ok:
 				r.Fail(c.ID, "format-accepts-name-no-quoted-string-can-hold", fmt.Sprintf("op %d %s(%q, %q) succeeded", i, o.name, o.args[0], o.args[1]))
 			case nameCarriable(o.args[0]) && perr == nil && bare.Name == "" && !ok && !strings.ContainsAny(o.args[1], "<>"):
-				r.Fail(c.ID, "format-rejects-valid-name", fmt.Sprintf("op %d %s(%q, %q) failed", i, o.name, o.args[0], o.args[1]))
+				r.Fail(c.ID, classQB("format-rejects-valid-name", before), fmt.Sprintf("op %d %s(%q, %q) failed", i, o.name, o.args[0], o.args[1]))
 			}
 		}
 		// reference semantics of the append setters (direct oracle): a valid address is appended,
@@ -370,7 +373,7 @@ func runCase(r *hx.Run, c hx.Case) {
 			}
 			if err == nil {
 				if !ok || !sameAddrs(after, append(append([]*netmail.Address(nil), before...), a)) {
-					r.Fail(c.ID, "add-does-not-append-one", fmt.Sprintf("op %d %s(%q): list before %s, after %s, ok=%v", i, o.name, v, addrListString(before), addrListString(after), ok))
+					r.Fail(c.ID, classQB("add-does-not-append-one", before), fmt.Sprintf("op %d %s(%q): list before %s, after %s, ok=%v", i, o.name, v, addrListString(before), addrListString(after), ok))
 				}
 			} else if ok || !sameAddrs(after, before) {
 				r.Fail(c.ID, "add-invalid-changes-list", fmt.Sprintf("op %d %s(%q): list before %s, after %s, ok=%v", i, o.name, v, addrListString(before), addrListString(after), ok))
@@ -561,7 +564,7 @@ func runCase(r *hx.Run, c hx.Case) {
 		if wantN == 1 {
 			back, err := netmail.ParseAddressList(val[x.name])
 			if err != nil || !sameAddrs(back, x.l) {
-				r.Fail(c.ID, "address-field-does-not-parse-back", fmt.Sprintf("field %s: %q parses to %s (err=%v), stored %s", x.name, val[x.name], addrListString(back), err, addrListString(x.l)))
+				r.Fail(c.ID, classQB("address-field-does-not-parse-back", x.l), fmt.Sprintf("field %s: %q parses to %s (err=%v), stored %s", x.name, val[x.name], addrListString(back), err, addrListString(x.l)))
 			}
 		}
 	}
@@ -602,6 +605,20 @@ func runCase(r *hx.Run, c hx.Case) {
 		}
 	}
 	r.Dist["keys-compared-with-what-was-set"] += checked
+}
+
+// knownQB: the class of failures caused by net/mail.Address.String writing a display name of the class
+// addrx.QBackslashName as a Q encoded-word that ParseAddress rejects (known_findings.txt).
+const knownQB = "dispname-backslash-q-encoded-word"
+
+// classQB returns the known class if one of the addresses carries such a name, else the class given.
+func classQB(class string, l []*netmail.Address) string {
+	for _, a := range l {
+		if addrx.QBackslashName(a.Name) {
+			return knownQB
+		}
+	}
+	return class
 }
 
 type wantAddr struct{ name, addr string }
@@ -802,6 +819,7 @@ func (g *gen) addrs(max int) []string {
 }
 
 var formatNames = []string{"Plain Name", "Doe, John", "Jürgen Müller", "quo\"te", "back\\slash", "", "a <b> c", "日本",
+	"\u00e9\\x",
 	"C:\\dir\\file", "say \"hi\" \\ \"bye\"", "end\\", "\"", "\\\"", "a\\\\b", "ctl\x01x", "cr\rlf\n", "del\x7f", "nul\x00",
 	"Jean\tLuc", "Jean\u00a0Luc", "zw\u200cnj", "zw\u200dj x", "soft\u00adhyphen", "lrm\u200e (x), y", "rlm\u200f", "line\u2028sep"}
 
@@ -907,6 +925,14 @@ func Run(r *hx.Run, replay []hx.Case) {
 	} {
 		runCase(r, hx.Case{ID: r.NewID(), Kind: "seq", Args: []string{opsString(ops)}})
 	}
+	// net/mail quirk (known finding dispname-backslash-q-encoded-word): names that need encoding and hold a backslash
+	for _, qn := range addrx.QBackslashNames {
+		runCase(r, hx.Case{ID: r.NewID(), Kind: "seq", Args: []string{opsString([]op{
+			{"FromFormat", []string{qn, "from@x.test"}}, {"To", []string{addrx.QuoteName(qn) + " <first@x.test>"}},
+			{"AddTo", []string{"second@x.test"}}, {"AddCcFormat", []string{qn, "cc1@x.test"}}, {"AddCc", []string{"cc2@x.test"}},
+			{"AddBcc", []string{mime.BEncoding.Encode("utf-8", qn) + " <bcc@y.test>"}},
+		})}})
+	}
 	// ...Format setters: backslashes, double quotes, control characters in the name argument
 	for _, fn := range []string{`C:\dir\file`, `say "hi"`, `end\`, `"`, `\"`, "ctl\x01x", "cr\r\nX-Injected: 1", "Tab\tName", "plain"} {
 		runCase(r, hx.Case{ID: r.NewID(), Kind: "seq", Args: []string{opsString([]op{
@@ -921,7 +947,7 @@ func Run(r *hx.Run, replay []hx.Case) {
 			{"From", []string{"sender@origin.test"}},
 			{"To", []string{addrx.QuoteName(hn) + " <first@x.test>", "plain@x.test"}},
 			{"AddTo", []string{"Second <second@x.test>"}},
-			{"AddToFormat", []string{formatNames[18+i%8], "third@x.test"}},
+			{"AddToFormat", []string{formatNames[19+i%8], "third@x.test"}},
 			{"Cc", []string{mime.QEncoding.Encode("utf-8", hn) + " <cc1@x.test>"}},
 			{"AddCcFormat", []string{"Plain Name", "cc2@x.test"}},
 			{"AddCc", []string{mime.BEncoding.Encode("utf-8", hn) + " <cc3@x.test>"}},
